@@ -13,6 +13,7 @@ import (
 func init() {
 	vpRegister("vpH_C14_pool", vpH_C14_pool)
 	vpRegister("vpH_C14_maporder", vpH_C14_maporder)
+	vpRegister("vpH_C14_bigpool", vpH_C14_bigpool)
 	vpRegister("vpH_C15_frozen", vpH_C15_frozen)
 }
 
@@ -163,4 +164,35 @@ func vpH_C15_frozen() {
 	}
 	vpAssert(same, "caller's bitmap unchanged")
 	vpReach("C15 frozen end")
+}
+
+// C14 with a large batch in the history: a build of 1030 documents (two
+// doc-value chunks, several postings chunks) leaves capacity in every pooled
+// buffer; a small batch built afterwards equals its build on a fresh builder,
+// and so does the large one after the small one.
+func vpH_C14_bigpool() {
+	var big []*vpDoc
+	for d := 0; d < 1030; d++ {
+		big = append(big, &vpDoc{fields: []*vpField{
+			{name: "b", dv: true, store: d%100 == 0, value: []byte{byte(d)}, length: 1 + d%3, terms: []*vpTerm{{term: []byte{'t', byte('a' + d%5)}, freq: 1 + d%2}}}}})
+	}
+	small := []*vpDoc{
+		{fields: []*vpField{{name: "b", dv: true, store: true, value: []byte("v"), length: 2, terms: []*vpTerm{{term: []byte("ta"), freq: 2}, {term: []byte("q"), freq: 1}}}}},
+		{fields: []*vpField{{name: "c", dv: true, length: 1, terms: []*vpTerm{{term: []byte("x"), freq: 1, locs: []*vpLoc{{pos: 1, start: 2, end: 3}}}}}}},
+	}
+	first, second := big, small
+	if vpChoice("order", 2) == 1 {
+		first, second = small, big
+	}
+	mode := []uint32{1025, 1}[vpChoice("mode", 2)]
+	vpPoolReuse(true)
+	vpPoolFlush()
+	fresh := vpBuildBytes(second, mode)
+	vpPoolFlush()
+	vpBuildBytes(first, mode)
+	again := vpBuildBytes(second, mode)
+	vpPoolReuse(false)
+	vpAssert(len(fresh) == len(again), "same size after a build of another size")
+	vpAssert(vpBytesEq(fresh, again), "same bytes after a build of another size")
+	vpReach("C14 bigpool end")
 }
